@@ -46,6 +46,19 @@ Theorem C02_add_chain_is_shapley : forall n K C rows labels dists ucols nulls i,
   == shapley n (v_knn K C rows labels dists ucols nulls) i.
 Proof. exact add_chain_is_shapley. Qed.
 
+(* any conjunctive provenance, incl. rows needing several units (compile()'s leaf/factor case): whenever the boolean
+   validator accepts the compiled diagram and row locations dumped from the implementation (evaluated inside Coq on
+   every instance of every run), the loop over the model of the ADD-based oracle is the Shapley value *)
+Theorem C02_add_validated_is_shapley : forall n K C rows labels dists ucols nulls d locs i,
+  (2 <= n)%nat -> (i < n)%nat -> (1 <= K)%nat ->
+  (forall ds, In ds dists -> valid_compiled (mkProb n rows labels ds (n - 1) K C) d locs = true) ->
+  (forall r, (r < length rows)%nat -> (nth r labels 0 < C)%nat) ->
+  (forall ds, In ds dists -> length ds = length rows /\ NoDup (map Qred ds)) ->
+  nth i (shapley_add (map (fun ds => mkProb n rows labels ds (n - 1) K C) dists)
+                     (map (fun p => oracle_of p d locs) (map (fun ds => mkProb n rows labels ds (n - 1) K C) dists)) ucols nulls n) 0
+  == shapley n (v_knn K C rows labels dists ucols nulls) i.
+Proof. exact add_validated_is_shapley. Qed.
+
 (* with pairwise distinct distances exactly one row of a K-or-more-element row set has rank K: the rank-based
    definition `nearest` selects exactly the K nearest rows *)
 Theorem C02_rank_count : forall (d : nat -> Q) (P : list nat), NoDup P ->
@@ -70,3 +83,4 @@ Print Assumptions C02_add_is_shapley.
 Print Assumptions C02_rank_count.
 Print Assumptions C02_add_chain_is_shapley.
 Print Assumptions C02_sorted_definition_agrees.
+Print Assumptions C02_add_validated_is_shapley.
